@@ -4,6 +4,7 @@
 -/
 import VotelibModel.Threshold
 import VotelibModel.Py
+import VotelibModel.Gen.OpenList
 namespace VL
 
 /-- constructor arguments of `ThresholdOpenList` (openlist.py L71-97).  `quota` is what
@@ -35,9 +36,10 @@ def jumpThreshold (cfg : OpenListCfg) (total : Rat) (n : Nat) : Option Rat :=
   | some jf, some q =>
     some (if cfg.takeHigher then Py.pyMax (total * jf) (q total n) else pyMin (total * jf) (q total n))
 
-/-- L122-127: everybody over (or on) the threshold, sorted by votes -/
+/-- L122-127: everybody over (or on) the threshold, sorted by votes.  The filter condition of the comprehension is
+    `Gen.OpenList.openlist_jumps`, regenerated from the source by harness/translate.py on every run. -/
 def jumpers (eq : Bool) (thr : Rat) (votes : Votes) : List Cand :=
-  ((sortDesc votes).filter (fun p => passes eq thr p.2)).map (·.1)
+  ((sortDesc votes).filter (fun p => Gen.OpenList.openlist_jumps thr eq p.2)).map (·.1)
 
 /-- L139-145: the loop over `candidate_list` appending to `elected` until `n_seats` are reached -/
 def fillFromList (n : Nat) : List Cand → List Cand → List Cand
